@@ -223,7 +223,18 @@ impl Check for C15 {
 			let mut c2 = cfg.clone();
 			c2.signed = false;
 			c2.integer = false;
-			feed::values(&mut run.sub("vol"), len, &c2, &mut FaultCount::new())
+			let mut v = feed::values(&mut run.sub("vol"), len, &c2, &mut FaultCount::new());
+			// candles without trades: exactly zero volume inside windows that also hold volume
+			if sut == "VWMA" && !fault_free && k % 2 == 1 {
+				let mut rz = run.sub("zero_volume");
+				for w in v.iter_mut().skip(1) {
+					if rz.chance(0.15) {
+						*w = 0.0;
+					}
+				}
+				*fc.entry("feed:zero_volume".into()).or_insert(0) += 1;
+			}
+			v
 		};
 		let mk = |v: &[f64]| -> Vec<In> {
 			if sut == "VWMA" {
@@ -232,8 +243,10 @@ impl Check for C15 {
 				feed::to_in_vals(v)
 			}
 		};
-		let a = [2.0, -1.0, 0.5, -3.25, 1e3, 1e-3, 1.0, -0.125][r.usize_below(8)];
-		let b = [0.0, 1.0, -7.5, 1e4, -1e-2, 100.0][r.usize_below(6)];
+		// the last two factors are powers of two far from 1 (2^-80, 2^70): scaling by them is exact, so every average must
+		// commute with it bit for bit - unless a constant of absolute size hides in the method
+		let a = [2.0, -1.0, 0.5, -3.25, 1e3, 1e-3, 1.0, -0.125, 8.271806125530277e-25, 1.1805916207174113e21][r.usize_below(10)];
+		let b = if a < 1e-20 || a > 1e20 { 0.0 } else { [0.0, 1.0, -7.5, 1e4, -1e-2, 100.0][r.usize_below(6)] };
 		let (x, y) = (mk(&xs), mk(&ys));
 		Case {
 			sut,
